@@ -10,6 +10,7 @@ import (
 	"verif/harness/internal/chain"
 	"verif/harness/internal/common"
 	"verif/harness/internal/kv"
+	"verif/harness/internal/rm"
 )
 
 func family(name string, profile string) common.Family {
@@ -18,6 +19,8 @@ func family(name string, profile string) common.Family {
 		return arith.Fam{}
 	case "chain":
 		return chain.New(profile)
+	case "rm":
+		return rm.New(profile)
 	case "kv":
 		return kv.New(profile)
 	}
